@@ -49,7 +49,8 @@ can be produced. -/
 def coverageOk : Bool := uncoveredCalls.isEmpty && orphanDecoderOps.isEmpty && orphanSchemaOps.isEmpty
 
 /-- Operators of parametrized objects: what they serialise to is accepted by the decoder
-and allowed by the schema — except the methods listed as not serialisable (finding F-C04-1). -/
+and allowed by the schema — except the methods listed in `knownBroken` (empty since the repair of
+finding F-C04-1). -/
 def exprOk (knownBroken : List String) : Bool :=
   exprOps.all fun me =>
     knownBroken.contains me.1 ||
